@@ -22,7 +22,7 @@ def plan(tier, seed):
 
 def floors(tier):
     return {"evaluations": 1500, "strata": ["no-bounds", "lower-only", "both-bounds-fit", "packing-exact-fit", "deeper-layer", "half-integer-targets", "tied-targets", "near-touching", "stale-nodes"],
-            "events": {"Force.compute": 1000, "removeOverlap": 1500}, "distinct_nontrivial": 300}
+            "events": {"Force.compute": 1000, "layers_observed": 1500}, "distinct_nontrivial": 300}
 
 
 def worker(ctx, shard):
